@@ -34,6 +34,7 @@ vars == <<l, sc, L, now, rel, mm, H, st>>
 
 NoScn == [mode |-> "vt", kind |-> "conn", tp |-> "tcp", alg |-> "none", res |-> "sync", loc |-> "none", cto |-> 0,
           dto |-> 0, ue |-> 0, blk |-> 0, rot |-> 0, ips |-> <<>>]
+OptPart(o, a, b) == IF Len(o) = 15 THEN SubSeq(o, a, b) ELSE <<>>
 ScOf(t) == [mode |-> t[1], kind |-> t[2], tp |-> t[3], alg |-> t[4], res |-> t[5], loc |-> t[6], cto |-> t[7],
             dto |-> t[8], ue |-> t[9], blk |-> t[10], rot |-> t[11], ips |-> t[12]]
 
@@ -227,6 +228,12 @@ EndChecksConn(ln) ==
     Chk(quiet \/ PErrno(sc, hs, prompt), "C13.errno",
         IF ~ResolvedObs \/ sc.loc = "namex" THEN ENOENT ELSE IF NCand(sc) = 0 THEN 0 ELSE ErrOf(sc, NCand(sc)), H.fail),
     Chk(quiet \/ hs.ph # "ready" \/ LocFam(sc) = 0 \/ ln.src = 1, "C13.local", "source is the local address", ln.src),
+    \* C11: the TCP options of the connection that came out of the multi-address connect: what xcm_attr_get reports is
+    \* what was configured, and it is what the kernel has on the connection (whichever of the track's sockets it is)
+    Chk(Len(ln.opt) # 15 \/ \A i \in 1..5 : ln.opt[i] = -1 \/ ln.opt[i] = ln.opt[5 + i], "C11.reported",
+        <<"configured", OptPart(ln.opt, 1, 5)>>, <<"reported", OptPart(ln.opt, 6, 10)>>),
+    Chk(Len(ln.opt) # 15 \/ OptPart(ln.opt, 6, 10) = OptPart(ln.opt, 11, 15), "C11.in_force",
+        <<"reported (keepalive, time, interval, count, user time-out)", OptPart(ln.opt, 6, 10)>>, <<"kernel", OptPart(ln.opt, 11, 15)>>),
     Chk(quiet \/ ~Decided(hs) \/ H.tv <= Budget(sc) + H.late, "C13.budget", Budget(sc), H.tv),
     Chk(quiet \/ H.fail # ETIMEDOUT \/ H.tv > sc.cto, "C13.budget", <<"ETIMEDOUT after", sc.cto>>, H.tv)>> \o
   \* model part
